@@ -543,12 +543,36 @@ Plan generate(const std::string& mode, uint64_t seed, uint64_t run) {
   Val v;
   unsigned sel = unsigned(r.below(100));
   bool big = false;
+  bool bigThroughApi = false;
   if (wantBig) {
     // count and length headers on both sides of 65535/65536
     big = true;
     size_t n = 65534 + size_t(r.below(4));
-    unsigned what = unsigned(r.below(3));
-    if (what == 0) {
+    unsigned what = unsigned(r.below(mp ? 4 : 3));
+    if (what == 3) {
+      // bin 32 / ext 32 handed over through MsgPackBinary / MsgPackExtension: every byte of the 4-byte length
+      // field takes a non-zero value somewhere in this list (only builds with 4-byte string lengths can hold them)
+      static const size_t sizes[] = {65535, 65536, 65537, 65791, 65792, 65836, 70000, 131072, 144470};
+      size_t m = sizes[r.below(9)];
+      std::string payload(m, '\0');
+      for (size_t j = 0; j < m; j++)
+        payload[j] = char((j * 131 + (j >> 8)) & 0xFF);
+      std::string raw;
+      bool ext = r.chance(1, 2);
+      raw += char(ext ? 0xc9 : 0xc6);
+      raw += char((m >> 24) & 0xFF);
+      raw += char((m >> 16) & 0xFF);
+      raw += char((m >> 8) & 0xFF);
+      raw += char(m & 0xFF);
+      if (ext)
+        raw += char(r.below(256));
+      raw += payload;
+      v = Val::arr();
+      v.a.push_back(Val::integer(1));
+      v.a.push_back(Val::raw(raw));
+      v.a.push_back(Val::integer(2));
+      bigThroughApi = true;
+    } else if (what == 0) {
       v = Val::arr();
       for (size_t j = 0; j < n; j++)
         v.a.push_back(Val::integer(int64_t(j & 0x7F)));
@@ -614,7 +638,7 @@ Plan generate(const std::string& mode, uint64_t seed, uint64_t run) {
   Op op = mkop("ser");
   static const char* fm[] = {"json", "pretty"};
   op.set("fmt", mp ? "mp" : fm[r.below(2)]).set("v", toText(v)).set("caps", big ? "sample" : "all");
-  if (big)
+  if (big && !bigThroughApi)
     op.set("viamp", 1);  // built by the MessagePack deserializer: member insertion through the API is quadratic
   if (!big && r.chance(1, 4)) {
     bool raw = false;
